@@ -20,6 +20,31 @@ thread_local! {
     static PENDING_HERE_DOCS: std::cell::RefCell<Vec<String>> = const { std::cell::RefCell::new(Vec::new()) };
 }
 
+thread_local! {
+    /// Number of command lists being written; only inside one can a here-document body be
+    /// handed on to be written after the current line.
+    static ENCLOSING_LISTS: std::cell::Cell<u32> = const { std::cell::Cell::new(0) };
+}
+
+thread_local! {
+    /// Whether the command list written last ended its own line (its last command carried
+    /// here-documents, whose bodies end with a newline).
+    static LAST_LIST_ENDED_LINE: std::cell::Cell<bool> = const { std::cell::Cell::new(false) };
+}
+
+/// Writes `<condition> <separator> ` ready for the keyword that follows a condition list
+/// (`then`, `do`): normally `; `, just a blank after `&`, nothing after a here-document.
+fn fmt_condition(f: &mut std::fmt::Formatter<'_>, condition: &CompoundList) -> std::fmt::Result {
+    write!(f, "{condition}")?;
+    if LAST_LIST_ENDED_LINE.with(std::cell::Cell::get) {
+        Ok(())
+    } else if matches!(condition.0.last(), Some(CompoundListItem(_, SeparatorOperator::Async))) {
+        write!(f, " ")
+    } else {
+        write!(f, "; ")
+    }
+}
+
 /// Runs `write` with verbatim mode on: lines that *begin* during it are not indented.
 fn verbatim<R>(write: impl FnOnce() -> R) -> R {
     VERBATIM_DEPTH.with(|d| d.set(d.get() + 1));
@@ -639,6 +664,11 @@ impl Display for ForClauseCommand {
     fn fmt(&self, f: &mut std::fmt::Formatter<'_>) -> std::fmt::Result {
         write!(f, "for {} in ", self.variable_name)?;
 
+        if self.values.is_none() {
+            // `for name; do` iterates over the positional parameters.
+            write!(f, "\"$@\"")?;
+        }
+
         if let Some(values) = &self.values {
             for (i, value) in values.iter().enumerate() {
                 if i > 0 {
@@ -772,6 +802,15 @@ impl SourceLocation for CompoundList {
 
 impl Display for CompoundList {
     fn fmt(&self, f: &mut std::fmt::Formatter<'_>) -> std::fmt::Result {
+        ENCLOSING_LISTS.with(|n| n.set(n.get() + 1));
+        let result = self.fmt_items(f);
+        ENCLOSING_LISTS.with(|n| n.set(n.get() - 1));
+        result
+    }
+}
+
+impl CompoundList {
+    fn fmt_items(&self, f: &mut std::fmt::Formatter<'_>) -> std::fmt::Result {
         let mut line_already_ended = false;
         for (i, item) in self.0.iter().enumerate() {
             if i > 0 && !line_already_ended {
@@ -803,10 +842,14 @@ impl Display for CompoundList {
             // Write the separator... unless we're on the list item and it's a ';'.
             if i == self.0.len() - 1 && matches!(item.1, SeparatorOperator::Sequence) {
                 // Skip
+            } else if matches!(item.1, SeparatorOperator::Async) {
+                write!(f, " {}", item.1)?;
             } else {
                 write!(f, "{}", item.1)?;
             }
         }
+
+        LAST_LIST_ENDED_LINE.with(|l| l.set(line_already_ended));
 
         Ok(())
     }
@@ -870,7 +913,9 @@ impl SourceLocation for IfClauseCommand {
 
 impl Display for IfClauseCommand {
     fn fmt(&self, f: &mut std::fmt::Formatter<'_>) -> std::fmt::Result {
-        writeln!(f, "if {}; then", self.condition)?;
+        write!(f, "if ")?;
+        fmt_condition(f, &self.condition)?;
+        writeln!(f, "then")?;
         write!(
             indented(f),
             "{}",
@@ -911,7 +956,9 @@ impl Display for ElseClause {
     fn fmt(&self, f: &mut std::fmt::Formatter<'_>) -> std::fmt::Result {
         writeln!(f)?;
         if let Some(condition) = &self.condition {
-            writeln!(f, "elif {condition}; then")?;
+            write!(f, "elif ")?;
+            fmt_condition(f, condition)?;
+            writeln!(f, "then")?;
         } else {
             writeln!(f, "else")?;
         }
@@ -1056,7 +1103,8 @@ impl SourceLocation for WhileOrUntilClauseCommand {
 
 impl Display for WhileOrUntilClauseCommand {
     fn fmt(&self, f: &mut std::fmt::Formatter<'_>) -> std::fmt::Result {
-        write!(f, "{}; {}", self.0, self.1)
+        fmt_condition(f, &self.0)?;
+        write!(f, "{}", self.1)
     }
 }
 
@@ -1765,6 +1813,16 @@ impl Display for IoHereDocument {
         let mut doc = self.doc.value.clone();
         doc.push_str(crate::tokenizer::unquote_str(&self.here_end.value).as_str());
         doc.push('\n');
+
+        if ENCLOSING_LISTS.with(std::cell::Cell::get) == 0 {
+            // Nothing will come after this redirection on its line (a function body's own
+            // redirection list, a single command shown on its own): the body follows at once.
+            return verbatim(|| {
+                writeln!(f)?;
+                write!(f, "{doc}")
+            });
+        }
+
         PENDING_HERE_DOCS.with(|p| p.borrow_mut().push(doc));
 
         Ok(())
